@@ -10,12 +10,12 @@ CHECKS = {
                 note="float membership in the closed box / on a facet is evaluated per stored point by the projection; PRNG keys sampled; TLC and the projection are trusted", ref="3.1 3.2 C08"),
     "C09": dict(cat="model_checking", tech="TLC model checking of Batching.tla + Apalache inductive invariant of CursorInd.tla (unbounded sizes) + trace validation (Trace_DataGen.tla) over all 1<=b<=n<=8 per store kind",
                 text="The epoch/cursor algorithm is model-checked for all n<=6, b<=n, active prefixes and permutations (NoRepeatWhenDivides, CoverBeforeReshuffle, "
-                     "PromptReshuffle); every get_batch of the real generators (7 store kinds, all b<=n<=8, border batch sizes independent of the interior batch size, 3 epochs, with/without RAR mask) must be a step of that model; "
+                     "PromptReshuffle); every get_batch of the real generators (7 store kinds, all b<=n<=8, border batch sizes independent of the interior batch size, 3 epochs, with/without RAR mask, eager and through one compiled get_batch) must be a step of that model; "
                      "Apalache discharges, for ALL sizes, the inductive invariant of the cursor/capacity arithmetic (window inside the store, no clamping when b divides the active count).",
                 note="point identity = exact bytes; PRNG sampled in traces, exhausted in the model", ref="3.1 C09"),
     "C14": dict(cat="model_checking", tech="TLC model checking of DataGen.tla + trace validation (Trace_DataGen.tla)",
                 text="Products/pairings are model-checked on three independent stores; each row of every real space-time batch is decoded to (time id, point id) and "
-                     "must equal the time-major product (or pairing) of the sub-batches dictated by the new generator state, per facet, across reshuffles.",
+                     "must equal the time-major product (or pairing) of the sub-batches dictated by the new generator state, per facet, across reshuffles; the product / pairing flag is given as Python bool, numpy bool and integer.",
                 note="point identity = exact bytes; PRNG sampled", ref="3.2 C14"),
     "C15": dict(cat="model_checking", tech="TLC model checking of Batching.tla (index vector) + trace validation (Trace_DataGen.tla) with tagged tables",
                 text="Tagged user tables make every batch row decode to the original row of each of its parts; TLC checks row alignment, shuffled-index conformance, "
@@ -29,7 +29,7 @@ CHECKS = {
                 note="step = change of the generator's step counter; active = non-zero probability; PRNG sampled; hooks H2 used only for the end-to-end leg", ref="3.3 C16"),
     "C17": dict(cat="model_checking", tech="TLC model checking of RarStore.tla / Rar.tla + trace validation (Trace_Rar.tla) with hook H1 candidates and independently recomputed residual ranks",
                 text="Store-level model with every reshuffle and every top set; in the traces the points written by each real refinement step must be candidates reported by hook H1 with "
-                     "the highest independently recomputed residual (top pairs for product domains), written only into the inactive window, with every active point surviving every draw, reshuffle and step; single and system losses (vector and scalar residuals), "
+                     "the highest independently recomputed residual (top pairs for product domains), written only into the inactive window, with every active point surviving every draw, reshuffle and step; single and system losses (vector and scalar residuals, landscapes given directly or through a heterogeneous equation parameter), "
                      "chained training calls, and the repository's own refinement test (ranks from the residuals reported by the hook) are included.",
                 note="candidates come from the guarded hook H1; crafted residual landscapes; near-ties tolerated; PRNG sampled", ref="3.3 C17"),
     "C07": dict(cat="model_checking", tech="TLC model checking of Solve.tla + replay of TLC-emitted scenarios and driver families into jinns.solve, validated by Trace_Solve.tla (tagged arithmetic)",
@@ -54,7 +54,7 @@ CHECKS = {
                      "(separable network) implementations of the same operators are checked on polynomial SPINNs (MC_FwdRev.tla, operators only), including batches smaller than the dimension.",
                 note="polynomial fields only; JAX AD on transcendental activations is trusted", ref="2.3 3.6 C01"),
     "C03": dict(cat="model_checking", tech="TLC enumeration of loss structures (MC_Loss.tla) + exact conformance of loss.evaluate against LossSemantics.tla (Trace_Func.tla)",
-                text="Every structure (loss kind x residual components x weight form x batch size x subset of other terms x twins) is instantiated with polynomial networks/residuals and integer batches; "
+                text="Every structure (loss kind x residual components x weight form x batch size x subset of other terms x twins x evaluate / __call__ / weights replaced on the built object) is instantiated with polynomial networks/residuals and integer batches; "
                      "total, dynamic term and exact zeros of unconfigured terms must equal the oracle; permutation/halves/linearity are lemmas checked on the twin records; structures with an observation batch "
                      "carrying observed parameters and with heterogeneous parameters (from the C12 family) are included: the dynamic term must not see the former and must apply the latter to the caller's values.",
                 note="polynomial networks and residual maps (exact under x64)", ref="3.6 C03"),
@@ -83,7 +83,7 @@ CHECKS = {
                      "on real losses (single and system) and generators; fingerprints of every argument before/after each call and of every result must satisfy ArgsUnchanged, repeatability and mode invariance.",
                 note="bitwise cross-mode comparison only on exact-arithmetic problems (x64); generator-only sequences run in the default 32-bit mode; fingerprints hash structure, array bytes and user dictionaries", ref="3.5 C20"),
     "C02": dict(cat="model_checking", tech="TLC enumeration of equation x parameter-role x key-layout structures (MC_Equations.tla) + exact conformance of DynamicLoss.evaluate against Equations.tla (Trace_Func.tla)",
-                text="For each built-in equation, every parameter in turn (and all together), Tmax 1/2/4 and every network/parameter key layout is instantiated with integer polynomial candidates; the residual "
+                text="For each built-in equation, every parameter in turn (and all together), Tmax 1/2/4 and every network/parameter key layout (including the solution as a later output of a multi-output network) is instantiated with integer polynomial candidates; the residual "
                      "returned by the real DynamicLoss.evaluate must equal the documented differential expression evaluated by the specification (exact rationals); the separable-network branches of the "
                      "built-in equations are checked on polynomial SPINNs (MC_FwdRev.tla, equations only).",
                 note="polynomial candidates (GLV: c(1+t)^m at dyadic points); GLV oracle = log form (docstring signs are a documentation remark)", ref="3.6 C02"),
